@@ -159,7 +159,10 @@ static const char* kCtx[] = {"bare", "struct-member", "vector-element", "outer-t
 static const int32_t kSentinel = 0x51525354;
 
 struct WriteOut { int err = 0; std::vector<uint8_t> bytes; };
-struct ReadOut { int err = 0; std::vector<Obs> obs; std::vector<Obs> obs2; bool sentinel_ok = false; bool at_end = false; bool ctx_ok = true; };
+struct ReadOut {
+  int err = 0; std::vector<Obs> obs; std::vector<Obs> obs2; bool sentinel_ok = false; bool at_end = false; bool ctx_ok = true;
+  bool outer_a_present = false, outer_b_present = false; std::string outer_b;  // IN_ENTRY: the enclosing table's entries
+};
 
 // the table under test in a wrapping context, followed by a sentinel value on the same stream
 template <class TV, class W>
@@ -212,7 +215,13 @@ static St read_wrapped(Rig& rig, TV& t, int ctx, bool prefill, ReadOut& r, std::
       vt::T2<TV, std::string> o;
       if (prefill) { o.a = t; o.b = std::string("stale"); }
       st = rig.read(&o);
-      if (st) { r.ctx_ok = !o.a.empty() && !o.b.empty() && o.b.get() == "tail"; if (!o.a.empty()) r.obs = observe(o.a.get()); }
+      if (st) {
+        r.outer_a_present = !o.a.empty();
+        r.outer_b_present = !o.b.empty();
+        if (!o.b.empty()) r.outer_b = o.b.get();
+        r.ctx_ok = !o.a.empty() && !o.b.empty() && o.b.get() == "tail";
+        if (!o.a.empty()) r.obs = observe(o.a.get());
+      }
       break;
     }
   }
@@ -536,6 +545,79 @@ static void run_c08() {
         }
       });
     }
+  }
+  // ---- nested: the table under test sits in an entry of an enclosing table (BoundedReader inside BoundedReader)
+  for (auto& wv : g_versions) {
+    if (!wv.ctx_capable || wv.entries.empty()) continue;
+    std::vector<int> a(wv.entries.size());
+    for (size_t i = 0; i < a.size(); i++) a[i] = 1 + (int)(i % 2);
+    auto outer_sch = [&](const Version& v) {
+      Sch s = Sch::Of(K::Tab);
+      s.n = siphash24_cstr("T2", kTableKey0, kTableKey1);
+      s.kids = {version_sch(v), Br<std::string>::sch()};
+      s.ids = {1, 128};
+      s.deleted = {0, 0};
+      return s;
+    };
+    Val oval;
+    {
+      Val ea; ea.u = 1; ea.kids.push_back(version_val(wv, a));
+      Val eb; eb.u = 1; Val sv; sv.raw = "tail"; eb.kids.push_back(sv);
+      oval.kids = {ea, eb};
+    }
+    Sch ows = outer_sch(wv);
+    MutCfg mc2 = mc;
+    mc2.bytesub_max_len = A.thorough() ? 48 : 0;
+    mc2.bytesub = A.thorough();
+    mutations(ows, oval, mc2, [&](const Mut& m) {
+      if (m.kind == MKind::PrefixSwap) return;
+      for (auto& rv : g_versions) {
+        if (!rv.read || !rv.ctx_capable) continue;
+        Sch rs = outer_sch(rv);
+        DecResult ref = refdec_bytes(rs, m.bytes.data(), m.bytes.size());
+        for (int rig : {R_PED, R_STR, R_BPED}) {
+          if (rig == R_STR && m.max_declared > (1u << 20)) continue;
+          std::string cid = "C08|nested|w" + std::to_string(wv.index) + "|r" + std::to_string(rv.index) + "|" + m.id() + "|" + kRig[rig];
+          if (!R.only.empty() && R.only != cid) continue;
+          std::vector<uint8_t> in = m.bytes;
+          if (ref.ok) { in.resize(ref.consumed); Enc se; enc_sint(se, kSentinel, Role::IntValue); in.insert(in.end(), se.bytes.begin(), se.bytes.end()); }
+          ReadOut ro = rv.read(rig, in.data(), in.size(), IN_ENTRY, false);
+          R.counters["evaluations"]++;
+          R.distinct_direct++;
+          std::string why, kind;
+          if (ref.ok) {
+            if (ro.err) { why = std::string("well-formed nested table rejected with ") + ename(ro.err); kind = std::string("rejected-wellformed|") + ename(ro.err); }
+            else {
+              const Val& ea = ref.val.kids[0];
+              const Val& eb = ref.val.kids[1];
+              bool same = ro.outer_a_present == (bool)ea.u && ro.outer_b_present == (bool)eb.u;
+              if (same && eb.u && ro.outer_b != eb.kids[0].raw) same = false;
+              if (same && ea.u) {
+                same = ro.obs.size() == rv.entries.size();
+                for (size_t j = 0; same && j < rv.entries.size(); j++) {
+                  const Val& e = ea.kids[0].kids[j];
+                  bool present = rv.entries[j].active && e.u;
+                  if (ro.obs[j].present != present) same = false;
+                  else if (present && ro.obs[j].v != e.kids[0]) same = false;
+                }
+              }
+              if (!same) { why = "decoded entries (outer or nested) differ from what the bytes denote"; kind = "value-differs"; }
+              else if (!ro.sentinel_ok) { why = "reader is not positioned exactly after the enclosing table"; kind = "position"; }
+            }
+          } else if (!ro.err) {
+            why = std::string("malformed nested table (") + cat_name(ref.cat) + ") was accepted";
+            kind = std::string("accepted-malformed|") + cat_name(ref.cat);
+          }
+          if (!why.empty()) {
+            R.outcome("MISMATCH");
+            R.viol(std::string("C08|nested|") + kRig[rig] + "|" + mkind_name(m.kind) + "|" + kind, cid, why,
+                   "{\"writer\":" + jstr(wv.desc) + ",\"reader\":" + jstr(rv.desc) + ",\"mutation\":" + jstr(m.id()) + ",\"input\":" + jstr(hex(m.bytes)) + "}");
+          } else {
+            R.outcome(ref.ok ? "accept" : std::string("reject:") + cat_name(ref.cat));
+          }
+        }
+      }
+    });
   }
   R.sample("{\"mutations\":\"entry dup/drop/swap, size shrink 1..12, grow 1..3 with/without padding, hash field to 17 values, every integer field re-classed, every byte x every value (<=40 bytes), truncation\"}");
 }
